@@ -94,10 +94,15 @@ def _specialise(expr, w):
 
 
 def _decide(test, env, consts):
-    """True/False/None for  name in CONST,  name == "lit",  name != "lit",  not <t>  with name bound in env"""
+    """True/False/None for  name in CONST,  name == "lit",  name != "lit",  not <t>,  a bare name bound to a literal bool  with name bound in env"""
     if isinstance(test, ast.UnaryOp) and isinstance(test.op, ast.Not):
         r = _decide(test.operand, env, consts)
         return None if r is None else (not r)
+    if isinstance(test, ast.Name) and isinstance(env.get(test.id), bool):
+        return env[test.id]
+    if isinstance(test, ast.Compare) and len(test.ops) == 1 and isinstance(test.ops[0], (ast.Is, ast.IsNot)) and isinstance(test.left, ast.Name) and test.left.id in env \
+            and isinstance(test.comparators[0], ast.Constant) and test.comparators[0].value is None:
+        return (env[test.left.id] is None) == isinstance(test.ops[0], ast.Is)
     if isinstance(test, ast.Compare) and len(test.ops) == 1 and isinstance(test.left, ast.Name) and test.left.id in env:
         v = env[test.left.id]
         rhs = test.comparators[0]
@@ -161,6 +166,19 @@ def _ds_keys(node, dsname, env=None, module=None, depth=0):
                     hds = k.arg
                 elif k.arg and str_const(k.value) is not None:
                     henv[k.arg] = str_const(k.value)
+                elif k.arg and isinstance(k.value, ast.Constant) and (isinstance(k.value.value, bool) or k.value.value is None):
+                    henv[k.arg] = k.value.value
+            for i, a in enumerate(n.args):
+                if i < len(hp) and isinstance(a, ast.Constant) and (isinstance(a.value, bool) or a.value is None):
+                    henv[hp[i]] = a.value
+            # parameters that are not passed take their literal defaults
+            ha = h.node.args
+            hpos = [x.arg for x in ha.posonlyargs + ha.args]
+            for prm, dflt in list(zip(hpos[len(hpos) - len(ha.defaults):], ha.defaults)) + [(x.arg, d) for x, d in zip(ha.kwonlyargs, ha.kw_defaults) if d is not None]:
+                if prm not in henv and prm != hds and isinstance(dflt, ast.Constant) and (isinstance(dflt.value, (bool, str)) or dflt.value is None):
+                    passed = any(k.arg == prm for k in n.keywords) or (prm in hpos and hpos.index(prm) < len(n.args))
+                    if not passed:
+                        henv[prm] = dflt.value
             consts = _module_str_consts(module)
 
             def hwalk(stmts):
@@ -221,7 +239,7 @@ def mpas_function_table(f: FuncInfo):
             if isinstance(st, ast.Assign):
                 for w in which:
                     val = _specialise(st.value, w)
-                    srcs, opaque = _ds_keys(val, in_ds, {}, f.module)
+                    srcs, opaque = _ds_keys(val, in_ds, dict(names.get(w, {})), f.module)
                     srcs = set(srcs)
                     used = {n.id for n in ast.walk(val) if isinstance(n, ast.Name)}
                     for u in used:
